@@ -28,7 +28,7 @@ DRIVERS = ["C13"]
 LEVEL = "proof"
 MANIFEST = {
     "category": "proof",
-    "text": ("Lean 4 theorems (95, Props/C13.lean) about an executable model of series/_temporal.py whose formulas (the eight change lambdas, "
+    "text": ("Lean 4 theorems (99, Props/C13.lean) about an executable model of series/_temporal.py whose formulas (the eight change lambdas, "
              "their neutral values, the five conversion helpers, the _CUMULATIVE_FACTORY table incl. default initial values) are regenerated "
              "from the Python AST on every run, so a changed formula re-checks the proofs. Proved, for every series of the model (one "
              "variant = frequency, rows, cells; several variants = MSer on shared rows): (1) every change is the NaN-strict cell-wise "
@@ -39,7 +39,8 @@ MANIFEST = {
              "period by period: diff, pct, roc, adiff over any field (pct/roc under x_s != 0, missing when x_s = 0), diff_log, adiff_log, apct, "
              "aroc over the reals (Real.log/exp/rpow; logs under positivity); (3) roc_from_pct/pct_from_roc invert each other against "
              "pct/roc for every series and negative shift (field with 100 != 0); pct_from_apct, roc_from_apct, roc_from_aroc undo the "
-             "annualisation for every series of POSITIVE values and every frequency (factor 1,1,2,4,12,365 from the source); (4) inversion: "
+             "annualisation for every series of POSITIVE values and every frequency (factor 1,1,2,4,12,365 from the source), and for EVERY "
+             "series (any sign) when the factor is 1 (yearly, integer periods); (4) inversion: "
              "for every negative shift, every span of any step, forward and backward, cum_X(X(s,k),k,initial=s,span) exists and equals s where "
              "s is defined (non-zero for pct/roc, positive for diff_log) -- on the whole stretch, or chain by chain (period t belongs to the "
              "chain t + n*k) through series WITH missing values; forward also for keyword shifts on the initial span the code computes; "
@@ -348,9 +349,8 @@ def gen_conv_lines(ctx: Ctx, rng, count: int):
         else:
             vals = [math.exp((rng.random() - 0.5) * 0.8) for _ in range(n)]
         if rng.chance(0.15) and kind in ("pct_from_apct", "roc_from_apct", "roc_from_aroc"):
-            vals = [v - 250.0 if rng.chance(0.3) else v for v in vals]     # negative gross rate: outside the domain unless yearly
-            if a == 1:
-                vals = [abs(v) + 1.0 for v in vals]
+            # negative gross rate: NaN for a fractional exponent, defined (exponent 1.0) for yearly and integer periods
+            vals = [v - 250.0 if rng.chance(0.3) else v for v in vals]
         vals = punch(rng, vals, rng.choice([0.0, 0.2]), rng.chance(0.3))
         c = carrier_for(kind, "positive", rng)
         out.append((kind, c, f"conv {c} {kind} {enc_series(c, f, gen_start(rng, f), vals)}", False))
@@ -594,6 +594,7 @@ def oracle_roundtrip(ctx: Ctx, case):
     a, b = case["span"] if case["span"] else (None, None)
     x = make_series(f, start, rows)
     base = kind[4:]
+    step = abs(int(case.get("step") or 1))      # spans of any step: every period between the initial periods and the span end is demanded
     ctx.evaluations += 1
     site = f"roundtrip-{kind}"
     try:
@@ -604,15 +605,17 @@ def oracle_roundtrip(ctx: Ctx, case):
                 y = getattr(ir, kind)(ch, k, initial=x)
                 a, b = start - k, start + len(rows) - 1
             elif direction == "forward":
-                y = getattr(ir, kind)(ch, k, initial=x, span=ir.Span(CLS[f](a), CLS[f](b)))
+                y = getattr(ir, kind)(ch, k, initial=x, span=ir.Span(CLS[f](a), CLS[f](b), step))
             else:
-                y = getattr(ir, kind)(ch, k, initial=x, span=ir.Span(CLS[f](a), CLS[f](b), -1))
+                y = getattr(ir, kind)(ch, k, initial=x, span=ir.Span(CLS[f](a), CLS[f](b), -step))
     except Exception as e:
         ctx.fail(site, case, f"{kind}({base}(x, {k}), {k}, initial=x, span={case['span']}, {direction}) raises {e!r}")
         return
     got = table_of(y)
     xs_tab = {start + i: rows[i] for i in range(len(rows))}
     lo, hi = (a, b) if direction == "forward" else (b, a)
+    if direction == "backward" and step > 1:
+        lo = a - ((a - b) // step) * step       # the last period a stepped backward span reaches: the initial span starts there
     holes = 0
     for t in range(lo, hi + 1):
         for j in range(nv):
@@ -629,7 +632,7 @@ def oracle_roundtrip(ctx: Ctx, case):
                                      + (" (chain of this period has no missing value; other chains do)" if case.get("holes") else ""))
                 return
     if hi - lo >= 2:
-        ctx.nontriv(("roundtrip", kind, f, k, direction, nv, case["span"] is None, holes > 0))
+        ctx.nontriv(("roundtrip", kind, f, k, direction, nv, case["span"] is None, holes > 0, step))
 
 
 def gen_oracle_cases(ctx: Ctx, rng, count: int):
@@ -661,7 +664,15 @@ def gen_oracle_cases(ctx: Ctx, rng, count: int):
             if f == "I" and kind in ("pct_from_apct", "roc_from_apct", "roc_from_aroc"):
                 f = "Q"
                 start = gen_start(rng, f)
-            cols = [punch(rng, gen_values(rng, n, "positive", f), rng.choice([0.0, 0.1]), rng.chance(0.3)) for _ in range(nv)]
+            ccls = "positive"
+            if rng.chance(0.3):
+                # yearly / integer periods: the annualisation factor is 1, `gross**(1/1)` is defined for negative gross rates too, so the
+                # helpers must be consistent with pct / roc on data that change sign (the raw formulas below are evaluated in floats)
+                f = rng.choice(["Y", "I"])
+                start = gen_start(rng, f)
+                ccls = "dyadic_nz"
+            ctx.count(f"oracle_conv:{ccls}:{f}")
+            cols = [punch(rng, gen_values(rng, n, ccls, f), rng.choice([0.0, 0.1]), rng.chance(0.3)) for _ in range(nv)]
             cases.append({"op": "conv", "kind": kind, "freq": f, "start": start, "shift": -rng.choice([1, 1, 2, 3, 5]),
                           "values": [list(r) for r in zip(*cols)]})
         else:
@@ -697,16 +708,17 @@ def gen_oracle_cases(ctx: Ctx, rng, count: int):
                     for i in range(n):
                         if (lo + i < b or lo + i > a - k) and rng.chance(0.3):
                             col[i] = None
+            step = rng.choice([2, 2, 3]) if span is not None and rng.chance(0.3) else 1
             holes = False
-            if span is not None and k <= -2 and rng.chance(0.35):
+            if span is not None and step == 1 and k <= -2 and rng.chance(0.35):
                 # interior missing values: the |k| interleaved chains are independent, a hole spoils its own chain only
                 holes = True
                 for col in cols:
                     for _ in range(rng.randint(1, 2)):
                         col[rng.randint(0, n - 1)] = None
             cases.append({"op": "roundtrip", "kind": kind, "freq": f, "start": start, "shift": k, "direction": direction,
-                          "span": span, "holes": holes, "values": [list(r) for r in zip(*cols)]})
-            ctx.count("oracle_roundtrip:" + ("holes" if holes else "complete"))
+                          "span": span, "step": step, "holes": holes, "values": [list(r) for r in zip(*cols)]})
+            ctx.count("oracle_roundtrip:" + ("holes" if holes else "complete") + f":{direction}:step{step}")
     return cases
 
 
